@@ -1027,22 +1027,36 @@ def gen_cascade_conv(rng):
     a = rng.choice([1, 1, 2])
     b = rng.choice([1, 1, 2])
     terms = [_iterm(a, "q"), _iterm(b, "s")]
-    decl = {"I": ["W"], "F": ["S"], "T": ["Q"]}
-    exprs = ["T[q] = I[%s] * F[s]" % " + ".join(terms)]
-    extents = {"Q": rng.randint(2, 5), "S": rng.randint(1, 3)}
-    extents["W"] = a * (extents["Q"] - 1) + b * (extents["S"] - 1) + 1
+    two_d = rng.random() < 0.35
     part, lo = {}, {}
-    if rng.random() < 0.4:
-        lo["T"] = _perm(rng, ["Q", "S"])
+    if two_d:
+        # 2-D: the intermediate is built with an explicit shape and (often) in another order than declared
+        t_ranks = _perm(rng, ["P", "Q"])
+        decl = {"I": ["H", "W"], "F": ["R", "S"], "T": t_ranks}
+        exprs = ["T%s = I[p + r, %s] * F[r, s]" % (_access(t_ranks), " + ".join(terms))]
+        extents = {"Q": rng.randint(2, 4), "S": rng.randint(1, 3), "P": rng.randint(2, 4), "R": rng.randint(1, 2)}
+        extents["W"] = a * (extents["Q"] - 1) + b * (extents["S"] - 1) + 1
+        extents["H"] = extents["P"] + extents["R"] - 1
+        if rng.random() < 0.7:
+            lo["T"] = _perm(rng, ["P", "Q", "R", "S"])
+        t_acc, t_own = "T" + _access(t_ranks), ["P", "Q"]
+    else:
+        decl = {"I": ["W"], "F": ["S"], "T": ["Q"]}
+        exprs = ["T[q] = I[%s] * F[s]" % " + ".join(terms)]
+        extents = {"Q": rng.randint(2, 5), "S": rng.randint(1, 3)}
+        extents["W"] = a * (extents["Q"] - 1) + b * (extents["S"] - 1) + 1
+        if rng.random() < 0.4:
+            lo["T"] = _perm(rng, ["Q", "S"])
+        t_acc, t_own = "T[q]", ["Q"]
     # second Einsum reads T over Q and one or two more ranks, sometimes re-using the names S / W as plain ranks
     extra = rng.sample(["M", "N", "S", "W"], rng.randint(1, 2))
     for r in extra:
         extents.setdefault(r, rng.randint(1, 5))
-    a_ranks = _perm(rng, ["Q"] + extra)
+    a_ranks = _perm(rng, t_own + extra)
     decl["A"] = a_ranks
-    out_ranks = _perm(rng, _subset(rng, ["Q"] + extra, 0.6))
+    out_ranks = _perm(rng, _subset(rng, t_own + extra, 0.6))
     decl["Z"] = out_ranks
-    exprs.append("Z" + _access(out_ranks) + " = " + " * ".join(_perm(rng, ["T[q]", "A" + _access(a_ranks)])))
+    exprs.append("Z" + _access(out_ranks) + " = " + " * ".join(_perm(rng, [t_acc, "A" + _access(a_ranks)])))
     all_ranks = default_loop_order({"decl": decl, "exprs": exprs}, "Z", exprs[1])
     kind = _choice_w(rng, [("shape", 3), ("occ", 3), ("flatten", 3), ("none", 1)])
     groups = [[r] for r in all_ranks]
